@@ -92,6 +92,10 @@ func (x *Exec) heapInit(key string) string {
 // heapTyping asserts the type invariant of a fresh incarnation of a heap array where the
 // element type has one that reads inside quantified contracts cannot state themselves.
 func (x *Exec) heapTyping(key, arr string) {
+	if strings.HasPrefix(key, "mutex:") {
+		// hold counters are never negative
+		x.u.fact(fmt.Sprintf("(forall ((r Int)) (! (>= (select %s r) 0) :pattern ((select %s r))))", arr, arr))
+	}
 	if key == "db.store.val" {
 		// every stored value is a byte string
 		srt := x.u.heapKeys[key]
@@ -262,7 +266,12 @@ func (x *Exec) merge(states []*State) *State {
 			gk[k] = true
 		}
 	}
+	var gks []string
 	for k := range gk {
+		gks = append(gks, k)
+	}
+	sort.Strings(gks)
+	for _, k := range gks {
 		same := true
 		first := live[0].ghost[k]
 		for _, s := range live {
@@ -283,8 +292,8 @@ func (x *Exec) merge(states []*State) *State {
 		for _, s := range live {
 			if v, ok := s.ghost[k]; ok {
 				x.u.fact("(=> " + s.pc + " (= " + n + " " + v.T + "))")
-			} else if strings.HasPrefix(k, "count:") {
-				x.u.fact("(=> " + s.pc + " (= " + n + " 0))")
+			} else if strings.HasPrefix(k, "defer:") {
+				x.u.fact("(=> " + s.pc + " (not " + n + "))") // defer statement not executed on this path
 			}
 		}
 		out.ghost[k] = Val{T: n, S: any.S, Ty: any.Ty}
